@@ -97,11 +97,17 @@ def gen(rng, tier, idx):
                         # make sure an earlier definer carries the agreed label
                         p.ops[min(definers[ty])].append(["mark_label", str(ty), str(v), d["labels"][v]])
                     p.op(t, "mark_label", ty, v, l)
-                if fault == "redefine-type" and t == fault_thread and not fault_done:
+                if r.chance(8):
+                    # defining a type (or a label) again with the same arguments is allowed, so that nobody has to
+                    # check whether it was defined already
                     p.op(t, "mark_type", ty, 1 if st else 0, title)
+                    if mine:
+                        p.op(t, "mark_label", ty, mine[0][0], mine[0][1] if not (fault == "x-label" and fault_done) else d["labels"][mine[0][0]] + "-conflict")
+                if fault == "redefine-type" and t == fault_thread and not fault_done:
+                    p.op(t, "mark_type", ty, 1 if st else 0, title + " (again, differently)")
                     fault_done = True
                 if fault == "redefine-label" and t == fault_thread and not fault_done and mine:
-                    p.op(t, "mark_label", ty, mine[0][0], "again")
+                    p.op(t, "mark_label", ty, mine[0][0], mine[0][1] + " again")
                     fault_done = True
         if fault == "label-undefined" and t == fault_thread and not fault_done:
             und = next(x for x in range(100) if x not in types)
